@@ -186,6 +186,7 @@ def check(case):
     idents = set(IDENT.findall(payload)) - STATE['allowed_names'] - {'x', 'y', 'z', 'r', 'a', 'b', 'v', 'true', 'false', 'not', 'and', 'or'}
     g = probe_grid()
     gm = model.grid_to_model(g)
+    raw = model.raw_snapshot(g)
     # every evaluation compiles: drop the compiled-filter cache (state must not leak between cases)
     import hszinc.grid_filter as gf
     gf._filter_function.cache_clear()
@@ -235,6 +236,8 @@ def check(case):
     if newmods:
         raise Violation('module-imported', case, 'new modules %r' % sorted(newmods)[:5], tags)
     d = model.diff(gm, model.grid_to_model(g))
+    if not d and model.raw_snapshot(g) != raw:
+        d = 'row dicts of the grid were touched (keys added or values replaced)'
     if d:
         raise Violation('grid-mutated', case, d, tags)
     return outcome
